@@ -68,7 +68,15 @@ txt += ("\nLessons that were turned into input classes everywhere they apply: in
         "adopted by reference is damaged by a later call in which it is not an argument), bounded progress on graphs with deep branching dead ends (which turned a\n"
         "mutant classified as benign into a caught one), and the library's Ising automaton with site-dependent edge activity; re-running all seeds and mutants with\n"
         "VERIF_SEED=1 exposed three catches that depended on the seed (directed workloads: zero-state histories in C02, symmetric sectors / converging runs in C10,\n"
-        "charge-diagonal MPOs in C01).\n\n"
+        "charge-diagonal MPOs in C01);\n"
+        "from round 9 (13 of 20 missed at first): chain SEGMENTS (MPOs with outer bonds of dimension > 1) as operands, option values of different KINDS (integer dtype\n"
+        "with a non-integer scale, real dtype with a complex scale), diagonal bond gauges with a dynamic range of 2^60 (exact powers of two: same object, badly scaled\n"
+        "bond basis), calls WITHOUT the write trap next to calls with it (a read-only operand steers the code away from an in-place branch: the trap hid the defect\n"
+        "it was meant to catch), label arrays that are monotone with repeats on matrices above a size threshold, spectra moved far from zero (H + c 1) with truncating\n"
+        "converged DMRG runs, long-range models also under TDVP conservation, parameters next to a special CONSTANT (1 +- 1e-6) instead of next to each other, strongly\n"
+        "decaying long real steps on semi-definite spectra, zero edges (empty operator lists) in operator graphs, subtree OBJECTS reused at different depths of one tree,\n"
+        "and very unbalanced bipartite problems (a few vertices against 70000; index pairs coinciding modulo 2^16; lattices of 300..540 sites and the molecular model at\n"
+        "L = 18 against structural references beyond the dense reach).\n\n"
         "Note on the repository suite: `test_krylov.py::test_eigh_krylov` fails in about 2 % of runs on the unchanged tree (12 of 600 seeded replays of its body, the\n"
         "same number before and after fix `3c1fa1a`): its tolerance on the second Ritz value is statistical. It is unrelated to any change made here.\n")
 d = open('/verif/DESIGN.md').read()
